@@ -248,6 +248,10 @@ func init() {
 		Run: func(c *ev.Ctx) {
 			c.Rule = "BFS over all sequences of set/delete/commit/open-historical-view (LoadLazyVersion as Context.PrevCtx and ABCI queries use it; CacheMultiStoreWithVersion) on a real rootmulti.Store (IAVL node cache size 1 and default; block writes through a cache multistore and, in a third configuration, directly into the live stores as this application's deliver state does); at every state every open view (however old, whatever was written or committed since, whichever other views were opened) is read completely (Get/Has/all ranges both directions, direct and cache-wrapped) and compared with the map committed at its height; store queries at every retained height likewise; on the real application, BFS over blocks (sends, claims for the running and the previous session, edit-stake, dispatch calls before and after a block) with Context.PrevCtx(h) for every executed height compared with the content committed at h. Non-trivial = history with a commit"
 			msRunSpecs(c, c09Specs(c.Tier))
+			// historical reads on a node whose state cache is switched on: chains long enough for the cache to recycle its
+			// slots, every retained height read after every block and compared with a cache-less node on the same data
+			c.Rule += "; with the state cache enabled: 15-block chains (all pairs of 6 per-block action sets, one-shot write/delete chains), every retained height read after every block"
+			c10LongChains(c, 15)
 			// application level (Context.PrevCtx with its height-keyed context cache)
 			env := claimsEnv()
 			menu := []BlockSpec{{}, blk(tx("send", "A1", "to", "A2", "amount", "3")), blk(tx("claim", "N1", "session", "cur")), blk(tx("claim", "N1", "session", "cur-1")),
